@@ -48,8 +48,10 @@ CHECKS = {
         text="Every density-returning object is integrated deterministically: exact sum over {0,1}^n for the Bernoulli, 1-D / 2-D midpoint quadrature (n and n/2 points) for the normal family, the MADE "
         "mixture (1-2 features, 1-3 components), BoxUniform, MG1Uniform and the kernel-density evaluator, and additivity + per-factor quadrature beyond two coordinates (incl. LotkaVolterraOscillating); "
         "mean() must have the documented shape and equal the quadrature first moment; sample() is run with the mid-quantiles of N(0,1) / U(0,1) injected through a seam and every sorted sample must sit "
-        "at its (k+1/2)/m quantile of the density (Bernoulli: frequency within 1/m of p).",
-        note="statistical clause replaced by its push-forward form; the mixture's sampler is only shape-checked; discontinuous uniform densities with a 5e-2 quadrature tolerance",
+        "at its (k+1/2)/m quantile of the density (Bernoulli: frequency within 1/m of p). The MADE mixture's sampler is decided by forcing every path of component choices x two noise "
+        "values per feature through the torch.multinomial / torch.randn seams in one sample() call and comparing the sampler's own conditional mixtures with exp(log_prob) at all (2K)^D draws; "
+        "sample_and_log_prob of the conditional distributions is compared with log_prob row by row.",
+        note="statistical clause replaced by its push-forward form; discontinuous uniform densities with a 5e-2 quadrature tolerance",
         ref="DESIGN.md 4/C05",
     ),
     "C06": dict(
@@ -92,7 +94,7 @@ CHECKS = {
         technique="stateless exhaustive exploration of all operation histories up to a depth on the real objects (replay from the empty history) + explicit-state BFS with exact state hashing to the fixpoint; oracle = uncached twin rebuilt from state_dict after every observing step",
         text="All histories over a 12-letter (thorough: 14) operation alphabet up to depth 4 (thorough: 5, and 6 on a 9-letter alphabet) are executed on "
         "fresh real LU/QR/SVD/Naive/1x1-conv transforms (bare and nested in a CompositeTransform, cache initially on/off); after every forward / "
-        "inverse / forward+backward the results are compared with an uncached twin; an operation the twin supports must not raise. A BFS over the "
+        "inverse / forward+backward (on batches of 3, 1, 2, ... rows in turn) the results are compared with an uncached twin; an operation the twin supports must not raise. A BFS over the "
         "exact concrete state (mode, flag, dtype, parameter values, cache slots) runs to its fixpoint, so arbitrarily long histories over that alphabet are covered.",
         note="three parameter vectors + in-place nudges; tolerance 1e-4*scale (float32) / 1e-10*scale (float64); BFS hash reads the private cache slots",
         ref="DESIGN.md 4/C10",
@@ -118,14 +120,15 @@ CHECKS = {
         text="For every transform, distribution and flow, mode (eval/train) and argument kind (fresh, non-contiguous view, slice of a larger tensor, requires_grad leaf, "
         "non-leaf), all histories of length <=2 (thorough <=3) over forward/inverse (log_prob, sample, sample_and_log_prob, transform_to_noise) are executed; after every "
         "call the caller's tensors (and view bases) must be unchanged by value and version counter, in eval mode every parameter and buffer must be unchanged and a repeated "
-        "call must be bit-identical, in training mode only the documented normalisation statistics may change.",
-        note="sampling made reproducible by seeding before each call; calls that raise are allowed but must leave everything unchanged",
+        "call must be bit-identical -- also to the same call made as the only call on a freshly built object (order independence) --, tensors returned by earlier calls must keep their values, "
+        "in training mode only the documented normalisation statistics may change. Each alphabet includes the first call with arguments in the other floating dtype.",
+        note="sampling made reproducible by seeding before each call (deterministic calls get a different RNG state at every step); calls that raise are allowed but must leave everything unchanged",
         ref="DESIGN.md 4/C13",
     ),
     "C14": dict(
         technique="stateless exhaustive exploration of all operation histories up to a depth on the real layers in lock-step with a numpy reference automaton; explicit-state BFS with exact state hashing to the fixpoint for ActNorm",
         text="All histories of length <=5 (thorough <=7) over {train, eval, forward(b1), forward(b2), inverse(b1), save+load into a fresh instance} are replayed on fresh ActNorm (2-D and image) "
-        "and BatchNorm layers; after every step outputs, log-dets, the complete state dict and the exception type are compared with a reference automaton of the documented life-cycle "
+        "and BatchNorm layers, bare and nested in a CompositeTransform (driven, saved and loaded through the parent); after every step outputs, log-dets, the complete state dict and the exception type are compared with a reference automaton of the documented life-cycle "
         "(initialise exactly once on the first training forward so that that batch is normalised; batch statistics and the momentum rule only in training forwards; running statistics in eval; "
         "inverse only in eval). The ActNorm state graph is additionally explored breadth-first to its fixpoint (6 states).",
         note="either variance convention (n, n-1) accepted; float64, tolerance 1e-10",
@@ -135,7 +138,7 @@ CHECKS = {
         technique="exhaustive enumeration of construction-randomness answers (all pairs, through seams on torch.randperm / randint / multinomial) and of model classes x configurations x histories-before-saving; oracle = bitwise agreement between the saved model and a differently-built instance after strict load_state_dict",
         text="For every transform, distribution and flow configuration (<=1 / <=2 deviations) and every history before saving (fresh, data-dependent initialisation, two optimiser steps, "
         "eval-mode calls with caching on) a model A is built and exercised, its state dict is loaded (strict) into an instance B constructed under different randomness, and forward / inverse / "
-        "log_prob / transform_to_noise of A and B must be bit-identical in eval mode. Random permutations (n<=3), the 1x1 convolution's permutation, random MADE degrees and random binary masks are "
+        "log_prob / transform_to_noise of A and B must be bit-identical in eval mode, and again after both made one more training-mode call on a new batch. Random permutations (n<=3), the 1x1 convolution's permutation, random MADE degrees and random binary masks are "
         "enumerated exhaustively: all pairs (answer for A, answer for B).",
         note="same configuration = same constructor arguments; the number of pairs where A and B differed before loading is reported (vacuity guard)",
         ref="DESIGN.md 4/C15",
@@ -144,8 +147,8 @@ CHECKS = {
         technique="bounded-exhaustive product exploration (subject x config x pattern x mode), every scalar parameter / input / context coordinate compared with a float64 central finite difference at two step sizes",
         text="For every transform and every flow/distribution configuration (<=1 / <=2 deviations), in eval and in training mode, a fixed-weight scalar of the outputs and log-dets (log_probs) is "
         "back-propagated to every trainable parameter, the inputs and the context; back-propagation must succeed, gradients must be finite, every parameter with a non-zero finite-difference "
-        "derivative must receive a gradient, and each gradient must equal the central finite difference of the real forward.",
-        note="rows are generic interior points; coordinates where two step sizes disagree (kinks) are skipped and counted; UMNN judged with its quadrature tolerance; at most 160 parameter scalars per case (deterministic stride)",
+        "derivative must receive a gradient, each gradient must equal the central finite difference of the real forward, and the parameter objects present before the first call must still be the module's parameters afterwards.",
+        note="rows are generic interior points, one coordinate exactly 0; coordinates where two step sizes disagree or the one-sided slopes differ by a step-independent amount (kinks) are skipped and counted; UMNN judged with its quadrature tolerance; at most 160 parameter scalars per case (deterministic stride)",
         ref="DESIGN.md 4/C16",
     ),
     "C17": dict(
@@ -170,7 +173,8 @@ CHECKS = {
         technique="bounded-exhaustive product exploration; oracle = float64 twin of the same model with a measured-conditioning accuracy band",
         text="Every transform (both directions) and every flow/distribution log_prob is evaluated in float32 on the float32-rounded C01/C02 row alphabets for every configuration "
         "(<=1 / <=2 deviations) and parameter pattern, and compared with a float64 deep copy of the same model: finite, no exception the twin does not raise, result dtype = input "
-        "dtype in both precisions, and error within 2^10*eps32*(1+|y|) + 4x the twin's own variation over a 64*eps32 neighbourhood of the input.",
+        "dtype in both precisions, and error within 2^10*eps32*(1+|y|) + 4x the twin's own variation over a 64*eps32 neighbourhood of the input. Wide (32-96 feature) layers and the "
+        "data-dependent first training-mode call of ActNorm / BatchNorm on offset batches (up to 50 +- 0.01) are included.",
         note="moderate magnitudes: conditioner outputs capped at 4, sigmoid/logit pairs restricted to |T x| <= 4; cubic-spline and UMNN declared approximations added to the band",
         ref="DESIGN.md 4/C19",
     ),
